@@ -11,12 +11,17 @@ import Rcgen.Spec.Props
 -/
 namespace Rcgen.Spec
 
-inductive Purpose | serverAuth | clientAuth
+/-- what a relying party asks a certificate to be good for: each of the standard purposes -/
+inductive Purpose | serverAuth | clientAuth | codeSigning | emailProtection | timeStamping | ocspSigning
   deriving DecidableEq, Repr
 
 def Purpose.oid : Purpose → List Nat
   | .serverAuth => [1, 3, 6, 1, 5, 5, 7, 3, 1]
   | .clientAuth => [1, 3, 6, 1, 5, 5, 7, 3, 2]
+  | .codeSigning => [1, 3, 6, 1, 5, 5, 7, 3, 3]
+  | .emailProtection => [1, 3, 6, 1, 5, 5, 7, 3, 4]
+  | .timeStamping => [1, 3, 6, 1, 5, 5, 7, 3, 8]
+  | .ocspSigning => [1, 3, 6, 1, 5, 5, 7, 3, 9]
 
 def findExt (c : TbsCert) (oid : List Nat) : Option ExtValue :=
   (c.exts.find? (fun e => e.oid == oid)).map (·.value)
